@@ -1772,6 +1772,11 @@ fn staked_driver(out: &str, seed: u64, n: u64) {
             r.act(p);
             r.act(json!({"op":"pulse_health","acct":"A1"}));
             r.act(json!({"op":"borrow","acct":"A1","bank":"BSOL","amount":1}));
+            // a bank created from the settings as they stand now (recorded side branch)
+            r.fork(&mut |r: &mut Recorder| {
+                r.act(json!({"op":"add_bank_staked","group":"G1","bank":"SBN","pool":"SP2","seed":77}));
+                r.act(json!({"op":"add_bank_staked","group":"G1","bank":"SBM","pool":"SP1","seed":78,"signer":"stranger"}));
+            });
         }
     }
     eprintln!("staked driver: {} scenarios, {} borrow boundaries, {} liquidations ok, {} events", n, nb, nliq, r.events);
@@ -1831,6 +1836,14 @@ fn kamino_driver(out: &str, seed: u64, n: u64) {
         r.act(json!({"op":"add_bank_kamino","group":"G1","bank":"KBX","reserve":"KR1","oracle":"OK1","setup":3,"seed":5}));
         r.act(json!({"op":"add_bank_kamino","group":"G1","bank":"KBX","reserve":"KR1","mint":"MD","oracle":"OK1","setup":6,"seed":5}));
         r.act(json!({"op":"add_bank_kamino","group":"G1","bank":"KBX","reserve":"KR1","oracle":"OK1","setup":6,"seed":5,"signer":"stranger"}));
+        // incoherent configurations, also for a bank that starts out paused
+        for st in [1u64, 0, 2] {
+            let bad = pick(&mut rng, &[json!({"aw_init":"0.9","aw_maint":"0.5"}), json!({"aw_init":"1.5","aw_maint":"1.6"}), json!({"risk_tier":1,"aw_init":"0.5","aw_maint":"0.6"}),
+                                        json!({"oracle_max_age":5}), json!({"aw_init":"0.5","aw_maint":"2.5"})]).clone();
+            let mut cfg = bad;
+            cfg["op_state"] = json!(st);
+            r.act(json!({"op":"add_bank_kamino","group":"G1","bank":"KBY","reserve":"KR1","oracle":"OK1","setup":6,"seed":6 + st,"cfg":cfg}));
+        }
         // deposits through the venue; the ordinary deposit / withdraw / borrow instructions refuse venue banks
         r.act(json!({"op":"deposit","acct":"A1","bank":"KB1","amount":5}));
         r.act(json!({"op":"kamino_deposit","acct":"A1","bank":"KB1","amount":0}));
@@ -1875,6 +1888,25 @@ fn kamino_driver(out: &str, seed: u64, n: u64) {
                     a["oracle_sub_slots"] = json!({"KB1": {"0": "OK2"}});
                     r.act(a);
                 });
+                // the reserve refreshed in this slot, one slot ago, two slots ago (recorded side branches)
+                let now_slot = r.ex.env.world.clock.slot;
+                for back in [0u64, 1, 2] {
+                    r.fork(&mut |r: &mut Recorder| {
+                        r.act(json!({"op":"set_kamino_reserve","reserve":"KR1","slot":now_slot.saturating_sub(back)}));
+                        r.act(mkb(small));
+                    });
+                }
+                // the time-weighted price carries its own confidence: far wider than the spot one, and beyond the bank's maximum
+                for ec in [0.03f64, 0.2] {
+                    r.fork(&mut |r: &mut Recorder| {
+                        let o = r.ex.env.oracles.get("OK1").cloned();
+                        if let Some(o) = o {
+                            r.act(json!({"op":"set_oracle","oracle":"OK1","price":o.price,"conf":o.conf,"ema":o.price,"ema_conf":((o.price as f64) * ec) as i64}));
+                            r.act(mkb(small));
+                            r.act(mkb(lo));
+                        }
+                    });
+                }
                 if r.act(mkb(lo))["res"] == "ok" {
                     debt = lo;
                     nb += 1;
